@@ -3,7 +3,7 @@
    decoding and skipping arbitrary bytes terminate; nesting is bounded by MaxDepth.
    Only statements, closed by [exact], with [Print Assumptions] beneath each. *)
 From Coq Require Import List NArith ZArith Bool Lia.
-From Verif Require Import Base.Outcome Wire.Item Gen.Consts Wire.Simple Wire.SimpleProofs.
+From Verif Require Import Base.Outcome Wire.Item Gen.Consts Wire.Simple Wire.SimpleProofs Wire.SimpleTotal Wire.SimpleDepth Wire.SimpleSkip.
 Import ListNotations.
 Open Scope N_scope.
 
@@ -40,6 +40,67 @@ Theorem W_simple_dec_enc_signed_overflow : forall (o : eopts) (D : dopts) (n : N
 Proof. exact W_simple_dec_enc_signed_overflow_lemma. Qed.
 Print Assumptions W_simple_dec_enc_signed_overflow.
 
+(* C11 at the wire level: the second parser (nextValueBytes, used to skip unknown struct fields and
+   to capture Raw) run on an encoding -- at any cursor position, with any bytes before and after,
+   at any container-state depth [dp] that leaves room for the value's nesting -- captures exactly the
+   encoding and leaves the reader exactly behind it: decode, skip and raw agree on extents. *)
+Theorem W_simple_skip_enc : forall (o : eopts) (D : dopts) (i : item) (key : bool) (before rest : list N) (fuel : nat) (dp : Z),
+  swf o D i -> (2 * length (enc o key i ++ rest) + 1 <= fuel)%nat -> (dp + Z.of_nat (depth i) < maxdepth D)%Z ->
+  nvb D fuel dp (rd_at before (enc o key i ++ rest)) = Ok (enc o key i, rd_at (before ++ enc o key i) rest).
+Proof. exact W_simple_skip_enc_lemma. Qed.
+Print Assumptions W_simple_skip_enc.
+
+Theorem W_simple_skip_raw_enc : forall (o : eopts) (D : dopts) (i : item) (rest : list N),
+  swf o D i -> (Z.of_nat (depth i) < maxdepth D)%Z ->
+  skip D (dec_fuel (enc o false i ++ rest)) (enc o false i ++ rest) = Ok rest /\
+  raw D (dec_fuel (enc o false i ++ rest)) (enc o false i ++ rest) = Ok (enc o false i, rest).
+Proof. exact W_simple_skip_enc_top_lemma. Qed.
+Print Assumptions W_simple_skip_raw_enc.
+
+(* C02 at the wire level: for EVERY byte list, option vector and starting depth, fuel linear in the
+   input length suffices: decoding into interface{} never runs out of fuel, and a successful decode
+   consumed at least one byte (every loop iteration advances the cursor). *)
+Theorem W_simple_dec_total : forall (D : dopts) (l : list N) (fuel : nat) (dp : Z),
+  (2 * length l + 1 <= fuel)%nat -> dec D fuel dp l <> OutOfFuel.
+Proof. exact W_simple_dec_total_lemma. Qed.
+Print Assumptions W_simple_dec_total.
+
+Theorem W_simple_dec_progress : forall (D : dopts) (l : list N) (fuel : nat) (dp : Z) (x : item) (r : list N),
+  (2 * length l + 1 <= fuel)%nat -> dec D fuel dp l = Ok (x, r) -> (length r < length l)%nat.
+Proof. exact W_simple_dec_progress_lemma. Qed.
+Print Assumptions W_simple_dec_progress.
+
+(* the same for the skip walker, from any reader state (since the F02-1 repair of bytesDecReader.skip
+   the cursor only moves forward; before it W_simple_skip_total was false: ec ff*8 e4 ff*7 f7) *)
+Theorem W_simple_skip_total : forall (D : dopts) (dp : Z) (z : rd) (fuel : nat),
+  (2 * length (suf z) + 1 <= fuel)%nat -> nvb D fuel dp z <> OutOfFuel.
+Proof. exact W_simple_skip_total_lemma. Qed.
+Print Assumptions W_simple_skip_total.
+
+(* C14 at the wire level.  The instrumented decoder is the decoder; it never meets a container
+   head whose length equals the containerLenNil sentinel (F14-3 repaired: lengths above MaxInt are
+   refused); its deepest recursion level is at most MaxDepth, for EVERY input and fuel. *)
+Theorem W_simple_depth : forall (D : dopts) (l : list N) (fuel : nat),
+  fst (dec_naked_i D fuel l) = dec_naked D fuel l /\
+  sentinel (snd (dec_naked_i D fuel l)) = false /\
+  (Z.of_nat (maxrec (snd (dec_naked_i D fuel l))) <= maxdepth D)%Z.
+Proof. exact W_simple_depth_bound_lemma. Qed.
+Print Assumptions W_simple_depth.
+
+(* the skip walker recurses at most MaxDepth - depth levels (F14-1 repaired: it had no accounting) *)
+Theorem W_simple_skip_depth : forall (D : dopts) (dp : Z) (z : rd) (fuel : nat),
+  (2 * length (suf z) + 1 <= fuel)%nat -> (0 <= dp)%Z ->
+  (Z.of_nat (snd (nvb_i D fuel dp z)) <= Z.max 1 (maxdepth D - dp))%Z.
+Proof. exact W_simple_skip_depth_lemma. Qed.
+Print Assumptions W_simple_skip_depth.
+
+(* an encoded value nested MaxDepth deep or deeper is refused with the depth error *)
+Theorem W_simple_depth_error : forall (o : eopts) (D : dopts) (i : item) (rest : list N),
+  swf o D i -> (signedInteger D = false \/ sint_ok i) -> (maxdepth D <= Z.of_nat (depth i))%Z ->
+  dec_naked D (dec_fuel (enc o false i ++ rest)) (enc o false i ++ rest) = Err EDepth.
+Proof. exact W_simple_depth_error_lemma. Qed.
+Print Assumptions W_simple_depth_error.
+
 Example W_simple_dec_enc_nonvacuous :
   let o := mkeopts true false in
   let D := mkdopts false false 0 in
@@ -59,3 +120,27 @@ Proof.
   - vm_compute. reflexivity.
   - vm_compute. reflexivity.
 Qed.
+
+(* non-vacuity of the depth statements: MaxDepth 3 accepts nesting 2 and refuses nesting 3,
+   on both parsers; hostile input stays within the recursion bound *)
+Example W_simple_depth_nonvacuous :
+  let D := mkdopts false false 3 in
+  let o := mkeopts false false in
+  let i2 := IArr [IArr [IUint 1]] in
+  let i3 := IArr [IMap [(IUint 1, IArr [INil])]] in
+  dec_naked D 100 (enc o false i2) = Ok (i2, []) /\
+  dec_naked D 100 (enc o false i3) = Err EDepth /\
+  skip D 100 (enc o false i2) = Ok [] /\
+  skip D 100 (enc o false i3) = Err EDepth /\
+  maxrec (snd (dec_naked_i D 100 (enc o false i2))) = 3%nat /\
+  snd (nvb_i (mkdopts false false 0) (N.to_nat 10000) 0 (rd_init (repeat 233 (N.to_nat 4000)))) = 1024%nat.
+Proof. vm_compute. repeat apply conj; reflexivity. Qed.
+
+Example W_simple_hostile_nonvacuous :
+  (* 8-byte length >= 2^63 (was: negative int / nil sentinel) *)
+  dec_naked (mkdopts false false 0) 100 [236; 255; 255; 255; 255; 128; 0; 0; 0; 1] = Err EOverflow /\
+  (* crafted length that used to wrap the cursor *)
+  skip (mkdopts false false 0) 100 [236; 0; 0; 0; 0; 0; 0; 0; 2; 228; 255; 255; 255; 255; 255; 255; 255; 247] = Err EEof /\
+  (* descriptor 221 (string + 5): refused by DecodeNaked, accepted with length 0 by the skip walker *)
+  dec_naked (mkdopts false false 0) 100 [221] = Err EBadDesc /\ skip (mkdopts false false 0) 100 [221; 7] = Ok [7].
+Proof. vm_compute. repeat apply conj; reflexivity. Qed.
